@@ -34,9 +34,14 @@ EarlyCauses(cmd) ==
          {"bad_args", "missing_input", "same_in_out", "unset_password", "wrong_password",
           "bad_header", "other_mode_file", "corrupt_header", "truncated_header", "corrupt_first_chunk", "truncated_first_chunk"}
     [] cmd = "key_generate" -> {"bad_args", "unset_password", "empty_name"}
+\* the output itself cannot be written: its directory does not exist, the device is full, or stdout
+\* is a full device.  The operation did not complete: exit 1 with an error message (C12), nothing new
+\* at a regular output path (C13 by analogy).
+OutputCauses == {"output_dir_missing", "output_device_full", "stdout_full"}
+
 \* failures after the first chunk has been authenticated and written
 LateCauses(cmd) == IF cmd \in {"decrypt", "pass_decrypt"} THEN {"corrupt_later_chunk", "truncated_later_chunk", "appended_data"} ELSE {}
-Causes(cmd) == {"none"} \cup EarlyCauses(cmd) \cup LateCauses(cmd)
+Causes(cmd) == {"none"} \cup EarlyCauses(cmd) \cup LateCauses(cmd) \cup OutputCauses
 
 UsesKeyring(cmd) == cmd \in {"encrypt", "decrypt"}
 HasInput(cmd) == cmd # "key_generate"
@@ -52,7 +57,9 @@ Configs ==
      /\ (c.outp = "stdout" => c.prior = "absent")               \* no output path
      /\ (c.cause = "missing_input" => c.inp = "file")
      /\ (c.cause = "same_in_out" => (c.inp = "file" /\ c.outp = "file" /\ c.prior = "present"))
-     /\ (c.cmd = "key_generate" => c.cause # "same_in_out")}
+     /\ (c.cmd = "key_generate" => c.cause # "same_in_out")
+     /\ (c.cause \in {"output_dir_missing", "output_device_full"} => (c.outp = "file" /\ c.prior = "absent"))
+     /\ (c.cause = "stdout_full" => c.outp = "stdout")}
 
 \* The abstract request: everything but the wiring.
 Abstract(c) == [cmd |-> c.cmd, cause |-> c.cause, sender |-> c.sender]
@@ -74,6 +81,9 @@ Expected(c) ==
   THEN [exit |-> 0, errline |-> FALSE,
         out |-> IF c.cmd = "key_generate" /\ c.prior = "present" THEN "appended" ELSE "full",
         named |-> IF c.cmd = "decrypt" THEN (IF c.sender = "absent" THEN "unknown" ELSE "name") ELSE "n/a"]
+  ELSE IF c.cause \in OutputCauses
+  THEN [exit |-> 1, errline |-> TRUE,
+        out |-> IF c.cause = "output_dir_missing" THEN "absent" ELSE "n/a", named |-> "n/a"]
   ELSE IF c.cause \in LateCauses(c.cmd)
   THEN [exit |-> 1, errline |-> TRUE,
         \* test files have two chunks and the damage is in / after the second: the first chunk is the
